@@ -12,7 +12,7 @@ Require Import TT.Model.Str TT.Model.TypeParse TT.Spec.TsType TT.Model.Render TT
 Require Import TT.Spec.C05Spec TT.Spec.C05Known.
 Require Import TT.Model.C05Parse TT.Proofs.C05ParseProofs.
 Require Import TT.Proofs.TypeParseProofs TT.Proofs.RenderProofs TT.Proofs.C05Proofs TT.Proofs.C05Sweep TT.Proofs.C05Witness TT.Proofs.C05Examples.
-Require Import TT.Proofs.C05PrefixProofs TT.Proofs.C05OracleProofs TT.Model.C05TypeStr TT.Proofs.C05TypeStrProofs.
+Require Import TT.Proofs.C05PrefixProofs TT.Proofs.C05OracleProofs TT.Model.C05TypeStr TT.Proofs.C05TypeStrProofs TT.Proofs.C05Utf8.
 Import ListNotations.
 Local Open Scope string_scope.
 
@@ -39,6 +39,17 @@ Definition C05_sound_zod_schema_statement : Prop :=
 Theorem C05_parse_faithful : forall t : rty,
   wf t -> nobr t -> parse_type_structure2 (tts t) = Some (sem t).
 Proof. exact parse_faithful. Qed.
+
+(* Names with non-ASCII letters (legal Rust identifiers): strings are UTF-8 byte lists, and every
+   identifier made of bytes >= 128 and of ASCII characters other than the eight delimiters and the two
+   square brackets satisfies the name hypotheses of C05_parse_faithful (ident inside wf, nb inside nobr).
+   So the parser theorem covers Result<Ärger, String>: all scanning is byte-wise and every delimiter is
+   ASCII. (The TypeScript-side theorems below are stated over ASCII identifiers, because the
+   specification lexer of Model/Render.v is ASCII-only; at run time non-ASCII names are checked through
+   a consistent renaming to ASCII identifiers - the name must appear verbatim.) *)
+Theorem C05_utf8_names_admitted : forall n : str,
+  n <> [] -> forallb high_or_ident n = true -> ident n /\ Forall nb n.
+Proof. exact utf8_name_ok. Qed.
 
 (* Parameter, field and channel sites in plain mode and the channel site in Zod mode, every type of
    the documented language at any nesting depth: the printed text, read by a TypeScript type parser
@@ -185,6 +196,12 @@ Theorem C05_prefix_composite_repaired : repaired SReturn MNone w_pfx_composite "
 Proof. exact prefix_composite_repaired. Qed.
 
 (* ---- the premises are satisfiable on non-trivial inputs ---- *)
+Definition ex_utf8 : rty := RPath (L "Result") [RPath (L "Ärger") []; RPath (L "String") []].
+Example C05_utf8_example :
+  forallb high_or_ident (L "Ärger") = true /\ List.length (L "Ärger") = 6 /\
+  parse_type_structure2 (tts ex_utf8) = Some (TRes (TCustom (L "Ärger"))) /\
+  emit_type SReturn MNone [] ex_utf8 = Some (L "types.Ärger").
+Proof. vm_compute. repeat split; reflexivity. Qed.
 (* Option<Vec<Vec<User>>> at the return site: qualified under two [] and | null *)
 Definition ex_ret : rty := RPath (L "Option") [RPath (L "Vec") [RPath (L "Vec") [RPath (L "User") []]]].
 Example C05_sound_prefix_premises :
@@ -220,6 +237,7 @@ Example C05_sweep_premises :
 Proof. exact sweep_premises_example. Qed.
 
 Print Assumptions C05_parse_faithful.
+Print Assumptions C05_utf8_names_admitted.
 Print Assumptions C05_sound_plain.
 Print Assumptions C05_plain_premises.
 Print Assumptions C05_sound_prefix.
